@@ -380,6 +380,9 @@ def run(ctx):
     batch(text, "random")
 
     ctx.notes["exploration"] = stats_all[:40]
+    ctx.notes["dfs_states_total"] = sum(int(m.group(1)) for l in stats_all for m in [re.search(r"dfs states=(\d+)", l)] if m)
+    ctx.notes["dfs_configurations"] = sum(1 for l in stats_all if "dfs states=" in l)
+    ctx.notes["random_schedules"] = sum(int(m.group(1)) for l in stats_all for m in [re.search(r"rand runs=(\d+)", l)] if m)
     if (not proofs_ok or not all_ok or any(k in ("tie-A", "correspondence") for k, _, _ in ctx.broken)) and not ctx.violations:
         # something no longer checks: look for a failing schedule with the monitors alone, enlarged scopes
         ctx.log("searching for a failing schedule with the monitors alone")
